@@ -13,6 +13,11 @@ type DynamicFanOut[T any] struct {
 	closed  bool
 	mutex   sync.Mutex
 	outputs map[int64]chan T
+
+	// removed[id] is closed by DespawnOutput before it takes mutex: run() holds mutex while it delivers,
+	// and must not stay blocked on an output whose consumer has stopped reading and is being removed.
+	removedMutex sync.Mutex
+	removed      map[int64]chan struct{}
 }
 
 func NewDynamicFanOut[T any](input <-chan T) *DynamicFanOut[T] {
@@ -21,6 +26,7 @@ func NewDynamicFanOut[T any](input <-chan T) *DynamicFanOut[T] {
 		inputCap: cap(input),
 		outputs:  make(map[int64]chan T),
 		mutex:    sync.Mutex{},
+		removed:  make(map[int64]chan struct{}),
 	}
 	go f.run()
 	return &f
@@ -29,12 +35,38 @@ func NewDynamicFanOut[T any](input <-chan T) *DynamicFanOut[T] {
 func (f *DynamicFanOut[T]) run() {
 	for e := range f.input {
 		f.mutex.Lock()
-		for _, o := range f.outputs {
-			o <- e
+		for id, o := range f.outputs {
+			removed := f.removedSignal(id)
+			select {
+			case <-removed: // being removed: nothing further is delivered to it
+				continue
+			default:
+			}
+			select {
+			case o <- e:
+			case <-removed:
+			}
 		}
 		f.mutex.Unlock()
 	}
 	f.closed = true
+}
+
+var closedSignal = func() chan struct{} {
+	c := make(chan struct{})
+	close(c)
+	return c
+}()
+
+// removedSignal returns a channel that is closed once removal of the given output has been requested
+func (f *DynamicFanOut[T]) removedSignal(id int64) <-chan struct{} {
+	f.removedMutex.Lock()
+	defer f.removedMutex.Unlock()
+	c, ok := f.removed[id]
+	if !ok {
+		return closedSignal
+	}
+	return c
 }
 
 // SpawnOutput creates new output channel and its ID for later despawning.
@@ -64,6 +96,9 @@ func (f *DynamicFanOut[T]) SpawnOutput() (int64, <-chan T, error) {
 		return 0, nil, fmt.Errorf("no space available")
 	}
 
+	f.removedMutex.Lock()
+	f.removed[id] = make(chan struct{})
+	f.removedMutex.Unlock()
 	f.outputs[id] = newChan
 	f.mutex.Unlock()
 	return id, newChan, nil
@@ -71,6 +106,13 @@ func (f *DynamicFanOut[T]) SpawnOutput() (int64, <-chan T, error) {
 
 // DespawnOutput removes output channel with given ID
 func (f *DynamicFanOut[T]) DespawnOutput(id int64) error {
+	f.removedMutex.Lock()
+	if c, ok := f.removed[id]; ok {
+		close(c)
+		delete(f.removed, id)
+	}
+	f.removedMutex.Unlock()
+
 	f.mutex.Lock()
 	defer f.mutex.Unlock()
 
